@@ -189,10 +189,11 @@ func VerifMisuseLifecycle() {
 	}
 	assertSnapEqual(before, snapOf(s.f), "after the invalid call", true)
 	s.checkCommitted("after the invalid call")
-	// and the file is not blocked
-	wtx, werr := s.f.Begin()
-	verifAssert(werr == nil, "a new write transaction can begin")
-	verifAssert(wtx.Close() == nil, "and close")
+	// and the file is not blocked: the lock is idle, a write transaction commits, a reader reads
+	lk := &s.f.locks
+	verifAssert(lk.sharedCount == 0 && !lk.pendingSet, "lock idle after the invalid call")
+	s.followUp()
+	s.checkCommitted("after a transaction that follows the invalid call")
 	verifReach("end")
 }
 
